@@ -54,6 +54,7 @@ MCNext == UNCHANGED c
 MCSpec == MCInit /\ [][MCNext]_vars
 
 Agreement == (Dev = {}) => Agree(c)
+AgreementD == Agree(c)
 \* vacuity guard: the space contains accepted and rejected triples
 Emit == PrintT(<<"CASE", ToJson([prop |-> "C06", drv |-> "facets", c |-> c, sat |-> Sat(c)])>>)
 ASSUME PrintT(<<"VOCAB", ToJson([names |-> [x |-> [xml |-> "x"]]])>>)
